@@ -262,6 +262,8 @@ def pair_excluded(f, a, g, b, cfgs, sysmap):
             return "keep_unsynchronized exists only for WHFast/SABA and is rejected with safe_mode=1"
         if v.get("stepper") == "c_part12" and fam == "janus" and False:
             return None
+    if sd is not None and v.get("keep") == 1 and (sd.get("only") or sd["name"] == "kepler2"):
+        return "keep_unsynchronized exists only for WHFast/SABA, which do not run this system"
     if v.get("pattern") == "one_call" and v.get("edit", "none") != "none":
         return "an edit needs a call boundary"
     if v.get("pattern") == "one_call" and v.get("adj", "none") != "none":
@@ -954,14 +956,17 @@ def covering_array(L, syss, sysmap):
 
     def candidate(ci):
         if ci not in allowed:
-            allowed[ci] = {f: [a for a in vals[f] if pair_excluded("cfg", ci, f, a, L, sysmap) is None and not (f == "pattern" and a == "one_call")]
-                           for f in small}
+            allowed[ci] = {f: [a for a in vals[f] if pair_excluded("cfg", ci, f, a, L, sysmap) is None] for f in small}
         al = allowed[ci]
         for _ in range(50):
             cs = {"cfg": ci}
             for f in small:
                 cs[f] = al[f][rng.next() % len(al[f])]
-            sub = {k: cs[k] for k in small[2:]}          # constraints among the non-cfg factors never involve system / dir
+            if cs["pattern"] == "one_call":
+                cs["adj"], cs["edit"] = "none", "none"
+                if all(cs[k] == PLAIN[k] for k in FORDER[3:]):
+                    continue                                 # that is a plain run
+            sub = {k: cs[k] for k in small if k != "dir"}
             if case_valid(sub, L, sysmap):
                 return cs
         return None
@@ -970,7 +975,7 @@ def covering_array(L, syss, sysmap):
         for f in FORDER[3:]:
             for a in vals[f]:
                 if pair_excluded("cfg", ci, f, a, L, sysmap) is None and not (f == "pattern" and a == "one_call"):
-                    need.add((f, a))
+                    need.add((f, a))       # (cfg, one_call) is covered by the plain runs
         guard = 0
         while need and guard < 60:
             guard += 1
@@ -994,12 +999,19 @@ def covering_array(L, syss, sysmap):
         guard += 1
         f, a, g, b = next(iter(uncovered))
         best, bs = None, -1
+        okc = [ci for ci in range(len(L)) if pair_excluded("cfg", ci, f, a, L, sysmap) is None and pair_excluded("cfg", ci, g, b, L, sysmap) is None]
         for _ in range(60):
-            cs = candidate(rng.next() % len(L))
+            if not okc:
+                break
+            cs = candidate(okc[rng.next() % len(okc)])
             if cs is None:
                 continue
             cs[f], cs[g] = a, b
-            if cs["pattern"] == "one_call" or not case_valid(cs, L, sysmap):
+            if cs["pattern"] == "one_call":
+                cs["adj"], cs["edit"] = "none", "none"
+                if (f in ("adj", "edit") and a != "none") or (g in ("adj", "edit") and b != "none"):
+                    continue
+            if not case_valid(cs, L, sysmap):
                 continue
             sc = sum(1 for pr in case_pairs({k: cs[k] for k in small}) if pr in uncovered)
             if sc > bs:
